@@ -15,7 +15,7 @@ func findSpec(id string) *CheckSpec {
 var commonAssumptions = []string{
 	"go/ssa (x/tools v0.29.0) builds a faithful SSA form of /repo's current source; the symx interpreter implements the SSA semantics (validated per run by replaying solver models of explored paths against the native build where the harness is natively runnable)",
 	"assembly kernels internal/bytealg.{IndexByte,IndexByteString,Count,CountString,Equal,Compare} and bytes/strings.Index/LastIndex are modelled by their specification (first/last match, count, lexicographic order)",
-	"z3 4.8.12 answers are correct; any (error or unknown makes the run inconclusive, never a pass",
+	"the solvers' answers (z3 5.1.0 incremental; z3 4.8.12, z3 5.1.0, cvc5 1.0 stand-alone) are correct; any (error or unknown makes the run inconclusive, never a pass",
 	"stdlib package-level tables (unicode, strconv, ...) are initialised once per worker and assumed not to be mutated by the code under test",
 }
 
@@ -101,7 +101,7 @@ var specs = []CheckSpec{
 			{Fn: "VerifC02Expand", Quick: map[string]int{"H": 3, "VL": 1}, Thorough: map[string]int{"H": 3, "VL": 2}, Witness: []string{"expanded", "reassigned"}, Native: true},
 		},
 		Bounds: map[string]string{
-			"quick":    "all lines of <= 6 bytes without '$' or newline against a reference tokenizer; all lists of <= 2 words of <= 3 arbitrary bytes (no newline) quoted and re-parsed; all histories of <= 3 assignments (via Setenv or the env builtin) to {A,B,AB} with values of <= 1 arbitrary byte, six reference forms ($K, ${K}, x$K/y, ${K}B, ${K@R}, '$K'$K)",
+			"quick":    "all lines of <= 6 bytes without '$' or newline against a reference tokenizer; all lists of <= 2 words of <= 3 arbitrary bytes (no newline) quoted and re-parsed; all histories of <= 3 assignments (via Setenv or the env builtin) to {A,B,AB,AR} with values of <= 1 arbitrary byte, six reference forms ($K, ${K}, x$K/y, ${K}B, ${K@R}, '$K'$K)",
 			"thorough": "lines <= 9 bytes; <= 3 words of <= 4 bytes; <= 3 assignments of values of <= 2 bytes",
 		},
 		Assumptions: append([]string{"${K@R}: 'matches exactly' is reduced to the contract of regexp.QuoteMeta (every metacharacter escaped), interpreted from its SSA; the regexp engine itself is not encoded", "programs see ts.env with os/exec's documented last-entry-wins rule"}, commonAssumptions...),
@@ -146,7 +146,7 @@ var specs = []CheckSpec{
 			{Fn: "VerifC13Trim", Quick: map[string]int{"E": 1, "LK": 1, "EPOCHS": 1}, Thorough: map[string]int{"E": 2, "LK": 1, "EPOCHS": 2}, Witness: []string{"clock-past-2038", "due", "not-due", "stale-removed", "lookup-before-trim", "trim-record-missing", "trim-record-digits", "trim-record-corrupt", "trim-record-unreadable"}},
 		},
 		Bounds: map[string]string{
-			"quick":    "one cache subdirectory with <= 1 file from an 8-name template (entry names with -a/-d suffix, trim.txt, README, x-b, -a, fuzz, a1-ab) with a symbolic modification time within +-20 days of now; last-trim record missing / unreadable / 6 corrupt forms / 10 decimal digits of which the last 6 are symbolic (+-11 days around now at second resolution), optionally blank-padded; <= 1 preceding lookup at a symbolic earlier time through the real used(); the instant of Trim chosen from {1700000000, 2200000000} (thorough: also 4400000000), i.e. before and after 2^31 and 2^32 seconds",
+			"quick":    "one cache subdirectory (a1, ff or 00) with <= 1 file from an 8-name template (entry names with -a/-d suffix, trim.txt, README, x-b, -a, fuzz, a1-ab) with a symbolic modification time within +-20 days of now; last-trim record missing / unreadable / 6 corrupt forms / 10 decimal digits of which the last 6 are symbolic (+-11 days around now at second resolution), optionally blank-padded; <= 1 preceding lookup at a symbolic earlier time through the real used(); the instant of Trim chosen from {1700000000, 2200000000} (thorough: also 4400000000), i.e. before and after 2^31 and 2^32 seconds",
 			"thorough": "<= 2 files per subdirectory",
 		},
 		Stubs: []string{"as C05, plus syscall.Flock (always succeeds) under lockedfile.Read/Write", "(time.Time).Sub on symbolic whole-second times: modelled as delta*1e9 under the path assumption |delta| < 2^33 s, with comparisons against constants rewritten to comparisons of delta (see symx/timemodel.go)"},
@@ -157,7 +157,7 @@ var specs = []CheckSpec{
 		ID: "C06", Pkg: "lockedfile", UsesVFS: true,
 		Harnesses: []HarnessSpec{
 			{Fn: "VerifC06OpenFile", Quick: map[string]int{"R": 2}, Thorough: map[string]int{"R": 8}, Witness: []string{"opened", "open-failed", "lock-failed", "write-lock", "read-lock", "truncated", "non-regular-file", "truncate-failure-ignored-for-non-regular-file"}},
-			{Fn: "VerifC06API", Quick: map[string]int{}, Thorough: map[string]int{}, Witness: []string{"api", "mutex"}},
+			{Fn: "VerifC06API", Quick: map[string]int{}, Thorough: map[string]int{}, Witness: []string{"api", "mutex", "mutex-open-fault-reported"}},
 		},
 		Bounds: map[string]string{
 			"quick":    "per-holder protocol: every flag word below 2^21 with a valid access mode (all other bits symbolic), file present or absent, 0..2 EINTR returns from flock followed by success or ENOLCK; all seven entry points (Open, Create, Edit, Read, Write, Transform, Mutex.Lock)",
@@ -200,15 +200,16 @@ var specs = []CheckSpec{
 		ID: "C01", Pkg: "testscript", UsesVFS: true,
 		Harnesses: []HarnessSpec{
 			{Fn: "VerifC01Verdict", Quick: map[string]int{"K": 2}, Thorough: map[string]int{"K": 3}, Witness: []string{"pass", "fail", "skip", "continue-on-error"}},
+			{Fn: "VerifC04Background", Quick: map[string]int{"B": 2}, Thorough: map[string]int{"B": 3}, Witness: []string{"wait", "wait-for-named-command"}},
 			{Fn: "VerifC01Exit", Pkg: "cmd/testscript", Quick: map[string]int{}, Thorough: map[string]int{}, Witness: []string{"some-script-failed", "no-script-failed", "two-scripts"}},
 		},
 		Bounds: map[string]string{
-			"quick":    "scripts of <= 2 lines over a menu of 25 line shapes (probe, ! probe, [c] probe, [!c] probe, [c] ! probe, two condition prefixes of either polarity with optional !, stop, ! stop, skip, unknown command, [c] alone, ! alone, # phase, blank, bad condition, exists / ! exists / exists-missing, cmp / ! cmp on two archive files with symbolic contents, mkdir, chmod with two paths, grep / ! grep / grep -count=N on a file with 0-3 matching lines); probe outcomes, the two condition values, file contents and ContinueOnError symbolic; run through the real RunT with a synchronous recording T; the standalone command's own T (cmd/testscript runT) over one or two scripts of <= 2 lines from {probe, skip, stop, unknown command}: failed run reported iff some script failed",
+			"quick":    "scripts of <= 2 lines over a menu of 25 line shapes (probe, ! probe, [c] probe, [!c] probe, [c] ! probe, two condition prefixes of either polarity with optional !, stop, ! stop, skip, unknown command, [c] alone, ! alone, # phase, blank, bad condition, exists / ! exists / exists-missing, cmp / ! cmp on two archive files with symbolic contents, mkdir, chmod with two paths, grep / ! grep / grep -count=N on a file with 0-3 matching lines); probe outcomes, the two condition values, file contents and ContinueOnError symbolic; run through the real RunT with a synchronous recording T; background commands over a process model (shared with C04: the status of a background command decides the verdict at wait, wait <name> and skip); the standalone command's own T (cmd/testscript runT) over one or two scripts of <= 2 lines from {probe, skip, stop, unknown command}: failed run reported iff some script failed",
 			"thorough": "<= 3 lines",
 		},
 		Stubs: []string{"vfs model for os/file calls, time.Now/Since (concrete clock), regexp on concrete arguments (native), flag definitions, sync (sequential)", "T: synchronous recording implementation; FailNow/Skip unwind by panic (deferred functions run as with runtime.Goexit)"},
 		Assumptions: append([]string{"the reference evaluator over line selectors (40 lines, in the harness) states the property: first failing line decides, stop = pass, skip = skipped unless a line already failed, [cond] false lines have no effect, ContinueOnError runs every line and still fails"}, commonAssumptions...),
-		Outside:     []string{"exec, background commands (&), kill, wait on real processes, stdout/stderr matching, grep on symbolic text (regexp runs natively on concrete text only), symlink, unix2dos, cmpenv (C16 covers cmpenv under UpdateScripts), stdin/ttyin", "parallel subtests (C04)", "the standalone command's flag parsing, stdin handling and os.Exit call (the harness mirrors the tail of mainerr: r.Run + r.failed)", "scripts longer than the bound"},
+		Outside:     []string{"foreground exec, kill, real processes (background commands and wait run over the process model of C04), stdout/stderr matching, grep on symbolic text (regexp runs natively on concrete text only), symlink, unix2dos, cmpenv (C16 covers cmpenv under UpdateScripts), stdin/ttyin", "parallel subtests (C04)", "the standalone command's flag parsing, stdin handling and os.Exit call (the harness mirrors the tail of mainerr: r.Run + r.failed)", "scripts longer than the bound"},
 	},
 	{
 		ID: "C16", Pkg: "testscript", UsesVFS: true,
@@ -228,10 +229,10 @@ var specs = []CheckSpec{
 		Harnesses: []HarnessSpec{
 			{Fn: "VerifC04Isolation", Quick: map[string]int{"S": 2}, Thorough: map[string]int{"S": 2}, Witness: []string{"removed", "retained", "two-scripts", "fail", "skip", "pass-or-stop", "read-only-dir", "deferred-function-ends-test"}},
 			{Fn: "VerifC04SetupEnds", Witness: []string{"setup-succeeds", "setup-fails", "setup-skips"}},
-			{Fn: "VerifC04Background", Quick: map[string]int{"B": 2}, Thorough: map[string]int{"B": 3}, Witness: []string{"ends-with-processes-running", "wait", "fails-with-processes-running", "skip-with-processes-running"}},
+			{Fn: "VerifC04Background", Quick: map[string]int{"B": 2}, Thorough: map[string]int{"B": 3}, Witness: []string{"ends-with-processes-running", "wait", "wait-for-named-command", "fails-with-processes-running", "skip-with-processes-running"}},
 		},
 		Bounds: map[string]string{
-			"quick":    "one or two scripts run one after the other through the real RunT; exit kind pass / fail / skip / stop; a read-only directory with a file left in the work dir or not; host environment with GOCOVERDIR and GORACE present or absent plus unrelated variables; TestWork and WorkdirRoot on or off (all choices symbolic); a Setup that registers deferred functions and succeeds / returns an error / skips / FailNow; 1-2 background commands (each: exits by itself with success or failure, or runs until signalled; negated or not) followed by nothing / wait / a failing line / skip / stop / wait and a failing line, verbose or not",
+			"quick":    "one or two scripts run one after the other through the real RunT; exit kind pass / fail / skip / stop; a read-only directory with a file left in the work dir or not; host environment with GOCOVERDIR and GORACE present or absent plus unrelated variables; TestWork and WorkdirRoot on or off (all choices symbolic); a Setup that registers deferred functions and succeeds / returns an error / skips / FailNow; 1-2 background commands (each: exits by itself with success or failure, or runs until signalled; negated or not) the first one named, followed by nothing / wait / a failing line / skip / stop / wait and a failing line / wait for the named command, verbose or not",
 			"thorough": "same, with up to 3 background commands",
 		},
 		Stubs: []string{"as C01; the vfs model enforces directory write permission on unlink so that the chmod walk of removeAll matters", "VerifC04Background: exec.Command, (*exec.Cmd).Start, (*os.Process).Signal/Kill, (*os.ProcessState).Success/String and testscript.waitOrStop over a process table (waitOrStop itself is C17)"},
